@@ -56,9 +56,9 @@ CLAIMED = {
         "Hz clause is a specialisation over the finite MIDI range with host floats, not a proof for all detunings. Independence of copies is decided under C15. Trusted: CPython ast, abstract evaluator (variants/c10.py), C01 summaries.",
         "DESIGN.md section 2, C10"),
     "C11": (
-        "lifting (pass-through) analysis of transpose/augment/diminish at NoteContainer, Bar and Track level by abstract evaluation on containers of recording stubs; decision-table evaluation of Note.transpose's octave fix-up; interval evaluation of the octave clamp",
-        "Static: at each container level each of the three operations calls the same-named operation exactly once on every element, in order, with its own parameters forwarded unchanged, skips rests (None) and leaves beats, values and rests untouched; Note.transpose renames through intervals.from_shorthand(old name, interval, up) and adjusts the octave by +1 exactly when going up and the renamed note compares lower than the note saved before the rename, by -1 exactly when going down and it compares higher; change_octave never yields a negative octave and equals octave + diff otherwise; Note.augment/diminish change the name by one semitone and keep the letter.",
-        "Semitone exactness of the renamed note is C03's; that the octave fix-up is right for every spelling is a numeric fact not decided here. Trusted: CPython ast, abstract evaluator (variants/c11.py), C01/C03 summaries.",
+        "lifting (pass-through) analysis of transpose/augment/diminish at NoteContainer, Bar and Track level by abstract evaluation on containers of recording stubs; abstract evaluation of Note.transpose as pitch arithmetic (rename summarised by C03's post-condition, real comparison operators on symbolic pitch numbers, both wrap cases); interval evaluation of the octave clamp",
+        "Static: at each container level each of the three operations calls the same-named operation exactly once on every element, in order, with its own parameters forwarded unchanged, skips rests (None) and leaves beats, values and rests untouched; Note.transpose renames through intervals.from_shorthand(old name, interval, up) and, with P(new) = P(old) +- s - 12w for a symbolic interval size s in 0..11 and either wrap w, moves the octave by exactly w on every path, i.e. the pitch number 12*octave + P(name) moves by exactly s; change_octave never yields a negative octave and equals octave + diff otherwise; Note.augment/diminish change the name by one semitone and keep the letter.",
+        "Semitone exactness of the renamed note (and that it stays within one wrap) is C03's and is used as a summary. Trusted: CPython ast, abstract evaluator (variants/c11.py), C01/C03 summaries.",
         "DESIGN.md section 2, C11"),
     "C12": (
         "writer-discipline (typestate) evaluation of NoteContainer.add_note on abstract containers: membership test fails on every element -> append -> sort before return; who-may-write enumeration of self.notes; decision tables of octave inference, polymorphic add/remove dispatch and the removal predicate; call-sequence checks of the shorthand constructors; pair-enumeration check of the consonance test",
@@ -76,9 +76,9 @@ CLAIMED = {
         "No-loss/no-reorder over arbitrary add sequences follows from the per-call rules by induction and is not explored. Trusted: CPython ast, abstract evaluator (variants/c14.py), C13.",
         "DESIGN.md section 2, C14"),
     "C15": (
-        "effect / alias / escape analysis: must-rebind analysis of class-level mutable defaults vs package-wide in-place mutation sites; escape analysis of memo tables by double abstract evaluation with object-identity comparison; parameter-mutation dataflow with alias tracking; who-may-write ownership table of module state and mutable default arguments; identity check of container copies; positive fixtures for zero-count rules",
-        "Static: over core, containers, the MIDI writers/sequencer and extra.fft (492 functions): every class-level list/dict is rebound per instance on every __init__ path or never mutated in place; for a battery of 30+ public list-returning functions (all memoised ones, every function/numeral accessor, to_chords, from_shorthand, scales) two calls share no mutable object with each other or with module-level containers; no function mutates a parameter or an alias of it in place (two frozen, reasoned exceptions); module-level mutable state is written only by its frozen owner, no mutable default arguments; NoteContainer(other)/add_notes(other) do not share Note objects and Note.dynamics is fresh.",
-        "Not decided: equality of fft._find_log_index's accelerated and cold paths (ownership of _last_asked only); value-independence of arbitrary call histories beyond purity + memo transparency. Trusted: CPython ast, effect analysis + evaluator (variants/c15.py, fixtures/fixpkg), the frozen tables in rules/c15.py.",
+        "effect / alias / escape analysis: must-rebind analysis of class-level mutable defaults vs package-wide in-place mutation sites; escape analysis of memo tables by double abstract evaluation with object-identity comparison; parameter-mutation dataflow with alias tracking; who-may-write ownership table of module state and mutable default arguments; identity check of container copies; order-domain evaluation (case analysis over comparison outcomes on a strictly increasing symbolic table) of the fft lookup accelerator's invariant; positive fixtures for zero-count rules",
+        "Static: over core, containers, the MIDI writers/sequencer and extra.fft (492 functions): every class-level list/dict is rebound per instance on every __init__ path or never mutated in place; for a battery of 30+ public list-returning functions (all memoised ones, every function/numeral accessor, to_chords, from_shorthand, scales) two calls share no mutable object with each other or with module-level containers; no function mutates a parameter or an alias of it in place (two frozen, reasoned exceptions); module-level mutable state is written only by its frozen owner, no mutable default arguments; NoteContainer(other)/add_notes(other) do not share Note objects and Note.dynamics is fresh; fft._find_log_index: from any remembered (row, frequency) with the frequency in that row, every shortcut answer is the row f lies in, the search loop is entered from a start below f after the range check, in-loop answers are the row f lies in, and every state written keeps the invariant.",
+        "Not decided: termination of fft._find_log_index's search loop and its fallback statements; value-independence of arbitrary call histories beyond purity + memo transparency. Trusted: CPython ast, effect analysis + evaluator (variants/c15.py, fixtures/fixpkg), the frozen tables in rules/c15.py.",
         "DESIGN.md section 2, C15"),
     "C16": (
         "abstract interpretation of the MIDI track walkers over a finite partition of track shapes with symbolic values/pitches/velocities in a byte-stream domain (pending-delta typestate + symbolic event decode against an event model); evaluation of framing constants, header/body agreement, controller argument order, key-signature bytes for all 30 keys, writer repeat loops; boundary specialisation of the VLQ encoder",
@@ -92,8 +92,8 @@ CLAIMED = {
         "DESIGN.md section 2, C17"),
     "C18": (
         "abstract interpretation of the sequencer with recorded hooks and a real observer (dispatch inlined) on bar/track shapes with symbolic pitches, channels, velocities, values and tempo, compared with an event model; symbolic evaluation of the control-change guards; registry / message-table / instrument-announcement evaluation; mutation-while-iterating lint",
-        "Static: for every bar shape (rest, 1-2 notes, tempo-changing container; 1-4 entries) play_Bar emits per sounding note one play_event(pitch+12, the note's channel and velocity), then sleep(240/(bpm*value)) with the tempo of that entry, then one stop_event with the same pitch and channel; rests only sleep; the final tempo is returned and threaded through play_Track; the observer's low-level stream equals the hook stream event by event; attach de-duplicates, detach removes, every listener is notified; control changes outside 0..128 (either argument, either side) return False and emit nothing, inside they emit once; every message constant is distinct and reaches the handler named for it with the keys the sequencer sends; play_Tracks announces one instrument per track on its channel before playing bars together, play_Composition defaults to channels 1..n; no loop mutates the list it iterates.",
-        "Not decided: the parallel scheduler of play_Bars (re-triggering with unequal rhythms, total sleep of parallel bars). Trusted: CPython ast, abstract evaluator (variants/c18.py), event model in rules/c18.py.",
+        "Static: for every bar shape (rest, 1-2 notes, tempo-changing container; 1-4 entries) play_Bar emits per sounding note one play_event(pitch+12, the note's channel and velocity), then sleep(240/(bpm*value)) with the tempo of that entry, then one stop_event with the same pitch and channel; rests only sleep; the final tempo is returned and threaded through play_Track; play_Bars on seven shapes of parallel full bars with equal rhythms (1-3 bars, tempo changes in any bar) emits per step every bar's notes, applies that step's tempo changes (last bar wins), sleeps once and stops every bar's notes; the observer's low-level stream equals the hook stream event by event; attach de-duplicates, detach removes, every listener is notified; control changes outside 0..128 (either argument, either side) return False and emit nothing, inside they emit once; every message constant is distinct and reaches the handler named for it with the keys the sequencer sends; play_Tracks announces one instrument per track on its channel before playing bars together, play_Composition defaults to channels 1..n; no loop mutates the list it iterates.",
+        "Not decided: the parallel scheduler of play_Bars on unequal rhythms or bars that are not full. Trusted: CPython ast, abstract evaluator (variants/c18.py), event model in rules/c18.py.",
         "DESIGN.md section 2, C18"),
     "C19": (
         "abstract interpretation of the exporters: fold / count-down summaries of LilyPond pitch rendering; evaluation of the LilyPond container/bar/track/composition renderers on shapes with an independent subset reader decoding the produced text; evaluation of the MusicXML builders over an abstract DOM with move-on-append semantics and decoding of the resulting tree",
